@@ -82,6 +82,16 @@ def distinct_elements(seq, l=None):
     return z3.ForAll([j], z3.Implies(z3.And(j >= 0, j < z3.Length(seq)), LIST_INDEX(seq, seq[j]) == j), patterns=[seq[j]])
 
 
+def qforall(vs, body, patterns=None):
+    """ForAll with explicit triggers where z3 accepts them (a trigger may not contain ite)."""
+    if patterns:
+        try:
+            return z3.ForAll(vs, body, patterns=patterns)
+        except z3.Z3Exception:
+            pass
+    return z3.ForAll(vs, body)
+
+
 _fresh_counter = itertools.count()
 
 
